@@ -980,7 +980,16 @@ func factoryTotal(P *Program) (bool, string) {
 	}
 	// PreRun: MapUpdate key from the same getter under uri != "", else-branch assigns memory
 	okPut, okMem := false, false
-	for _, b := range pre.Blocks {
+	// PreRun and the function literals written in it (the per-filter body handed to an iterator helper)
+	scope := []*ssa.Function{pre}
+	for i := 0; i < len(scope) && len(scope) < 16; i++ {
+		scope = append(scope, scope[i].AnonFuncs...)
+	}
+	var blocks []*ssa.BasicBlock
+	for _, f := range scope {
+		blocks = append(blocks, f.Blocks...)
+	}
+	for _, b := range blocks {
 		for _, ins := range b.Instrs {
 			switch x := ins.(type) {
 			case *ssa.MapUpdate:
@@ -991,7 +1000,7 @@ func factoryTotal(P *Program) (bool, string) {
 				if fa, ok := x.Addr.(*ssa.FieldAddr); ok && fieldAddrID(fa) == pkgOIDC+".sessionStoreFactory.memory" {
 					if call, _, isC := asCall(x.Val); isC && call.Common().StaticCallee() != nil && call.Common().StaticCallee().Name() == "NewMemoryStore" {
 						// reached under uri == ""
-						fs := FactsOf(pre).At(x)
+						fs := FactsOf(x.Parent()).At(x)
 						for cond, pol := range fs {
 							if bo, isB := cond.(*ssa.BinOp); isB {
 								if cc, _, isC2 := asCall(bo.X); isC2 && isCallTo(cc, uriGetter) {
@@ -1313,7 +1322,27 @@ func indexInBounds(fn *ssa.Function, fs FactSet, x, index ssa.Value) (bool, stri
 
 // sliceInBounds recognises bounds derived from strings.Index results on the sliced string.
 func sliceInBounds(fn *ssa.Function, fs FactSet, s *ssa.Slice) (bool, string) {
-	x := s.X
+	ok, why := sliceBoundsJudge(fn, fs, s.X, s.Low, s.High)
+	if ok || s.High == nil {
+		return ok, why
+	}
+	// the high bound is chosen by a branch (`end := len(x); if i != -1 { end = i }; x[lo:end]`): each alternative is judged
+	// under the facts of the edge that selects it together with the facts at the slice
+	if ph, isPhi := resolveCell(stripConv(s.High)).(*ssa.Phi); isPhi {
+		alts := phiAlternatives(fn, ph, s)
+		if len(alts) >= 2 {
+			for _, a := range alts {
+				if okA, whyA := sliceBoundsJudge(fn, unionFacts(fs, a.Facts), s.X, s.Low, resolveCell(stripConv(a.V))); !okA {
+					return false, "with the high bound chosen by a branch, for the alternative " + descDepth(a.V, 2) + ": " + whyA
+				}
+			}
+			return true, "high bound chosen by a branch: every alternative is len(x) or a found position under the facts of its edge"
+		}
+	}
+	return ok, why
+}
+
+func sliceBoundsJudge(fn *ssa.Function, fs FactSet, x, sLow, sHigh ssa.Value) (bool, string) {
 	// an index value v is "a found position in x (or in a prefix of x)": every leaf is strings.Index(x…)
 	// and v != -1 is known
 	foundPos := func(v ssa.Value) (ok bool, prefixHigh ssa.Value) {
@@ -1342,11 +1371,15 @@ func sliceInBounds(fn *ssa.Function, fs FactSet, s *ssa.Slice) (bool, string) {
 			}
 			if ph, isPhi := subj.(*ssa.Phi); isPhi {
 				all := true
+				saved := prefixHigh
 				for _, e := range ph.Edges {
 					if !okSubj(e) {
 						all = false
 					}
 				}
+				// a subject chosen by a branch is in x either way, but it is a prefix only on some edges: the low <= high
+				// argument below looks at the edges itself
+				prefixHigh = saved
 				if all {
 					continue
 				}
@@ -1369,23 +1402,23 @@ func sliceInBounds(fn *ssa.Function, fs FactSet, s *ssa.Slice) (bool, string) {
 		}
 		return nil, false
 	}
-	okLow, okHigh := s.Low == nil, s.High == nil
+	okLow, okHigh := sLow == nil, sHigh == nil
 	var lowBase, highBase ssa.Value
-	if s.Low != nil {
-		if k, isC := constInt(s.Low); isC && k == 0 {
+	if sLow != nil {
+		if k, isC := constInt(sLow); isC && k == 0 {
 			okLow = true
-		} else if base, isP := plusOne(s.Low); isP {
+		} else if base, isP := plusOne(sLow); isP {
 			if ok, _ := foundPos(base); ok {
 				okLow, lowBase = true, base
 			}
-		} else if ok, _ := foundPos(s.Low); ok {
-			okLow, lowBase = true, s.Low
+		} else if ok, _ := foundPos(sLow); ok {
+			okLow, lowBase = true, sLow
 		}
 	}
-	if s.High != nil {
-		if ok, _ := foundPos(s.High); ok {
-			okHigh, highBase = true, s.High
-		} else if isLenCall := lenOf(x); isLenCall(s.High) {
+	if sHigh != nil {
+		if ok, _ := foundPos(sHigh); ok {
+			okHigh, highBase = true, sHigh
+		} else if isLenCall := lenOf(x); isLenCall(sHigh) {
 			okHigh = true
 		}
 	}
@@ -1415,7 +1448,25 @@ func sliceInBounds(fn *ssa.Function, fs FactSet, s *ssa.Slice) (bool, string) {
 				// accept when the facts on this path exclude the unbounded leaf: the phi alternative searched
 				// in the whole string is selected only when high == -1, contradicting high != -1 here.
 				ok2 := true
-				if ph2, isPhi := lowBase.(*ssa.Phi); isPhi {
+				if lc, _, isC := asCall(resolveCell(stripConv(lowBase))); isC && len(lc.Common().Args) > 0 {
+					// one search whose subject is chosen by a branch: every subject is the prefix ending at the high position,
+					// or is selected only where the high position was not found (excluded here, where it is known found)
+					if sp, isPhi := resolveCell(stripConv(lc.Common().Args[0])).(*ssa.Phi); isPhi {
+						ff := FactsOf(fn)
+						for i, e := range sp.Edges {
+							e = resolveCell(stripConv(e))
+							if sl, isS := e.(*ssa.Slice); isS && sameVal(sl.X, x) && sl.Low == nil && sl.High != nil && sameVal(sl.High, highBase) {
+								continue
+							}
+							efs := ff.OnEdge(sp.Block().Preds[i], sp.Block())
+							if !efs.intFact(highBase, func(op token.Token, k int64) bool { return op == token.EQL && k == -1 }) {
+								ok2 = false
+							}
+						}
+					} else {
+						ok2 = false
+					}
+				} else if ph2, isPhi := lowBase.(*ssa.Phi); isPhi {
 					ff := FactsOf(fn)
 					for i, e := range ph2.Edges {
 						call, _, isC := asCall(e)
